@@ -70,8 +70,25 @@ FloatArith ==
                  /\ AllResults(e, exp) /\ AllCells(e, exp), exp)
         /\ memo' = IF known THEN memo ELSE (key :> exp) @@ memo
 
+\* `xs~ $+' / `xs~ $*' over floats is the documented left fold from 0.0 / 1.0, every step rounded on its own: the steps
+\* were recorded before (float2 records of the implementation's own operator, now in `memo'); every execution form of
+\* the reduction must give the end of that chain, bit for bit (C11)
+ZeroF == <<0, 0, 0, 0, 0, 0, 0, 0>>
+OneF == <<0, 0, 0, 0, 0, 0, 240, 63>>
+FloatFold ==
+  /\ IsEvent("ffold") /\ Cur.op \in {"+", "*"}
+  /\ LET e == Cur
+         RECURSIVE Chain(_, _)
+         Chain(acc, i) == IF i > Len(e.xs) THEN [k |-> "float", l |-> acc]
+                          ELSE LET key == <<e.op, acc, e.xs[i]>> IN
+                               IF key \in DOMAIN memo /\ memo[key].k = "float" THEN Chain(memo[key].l, i + 1)
+                               ELSE [k |-> "no-recorded-step", at |-> i]
+         exp == Chain(IF e.op = "+" THEN ZeroF ELSE OneF, 1)
+     IN Judge(Len(e.rs) >= 1 /\ exp.k = "float" /\ AllResults(e, exp), exp)
+  /\ UNCHANGED memo
+
 Init == l = 1 /\ memo = <<>> /\ bad = 0
-Next == IntBinary \/ IntUnary \/ FloatCompare \/ FloatUnary \/ FloatArith
+Next == IntBinary \/ IntUnary \/ FloatCompare \/ FloatUnary \/ FloatArith \/ FloatFold
 TraceSpec == Init /\ [][Next]_vars
 
 \* every record was consumed (a record of an unknown shape stops the trace)
